@@ -1,6 +1,7 @@
 package props
 
 import (
+	"time"
 	"context"
 	"encoding/json"
 	"fmt"
@@ -26,6 +27,7 @@ type mEmit struct {
 
 type mChild struct {
 	Style  string    `json:"style"` // seq | async
+	Lag    int       `json:"lag,omitempty"` // milliseconds of simulated time before each emission (a slow child)
 	Reqs   [][]mEmit `json:"reqs"`  // emissions for the k-th REQ this child receives
 	OKs    []int     `json:"oks"`   // verdict for the k-th EVENT: 0 accept, 1.. reject with reason r<child>.<n>
 	Counts []int     `json:"counts"`
@@ -228,6 +230,15 @@ func (mergeEngine) Gen(t *rapid.T, tier string) any {
 		}
 		c.Children = append(c.Children, ch)
 	}
+	// a slow child: in wide merges usually one of the last, else any
+	if wide > 0 || rapid.IntRange(0, 3).Draw(t, "slowchild") == 0 {
+		n := len(c.Children)
+		li := rapid.IntRange(0, n-1).Draw(t, "late")
+		if wide > 0 && rapid.IntRange(0, 2).Draw(t, "latelast") > 0 {
+			li = n - 1 - rapid.IntRange(0, 2).Draw(t, "lateoff")
+		}
+		c.Children[li].Lag = rapid.SampledFrom([]int{20, 400}).Draw(t, "lag")
+	}
 	c.Sched = GenSchedule(t, 1500)
 	return c
 }
@@ -309,6 +320,11 @@ func (s *mStub) reactions(m mocrelay.ClientMsg) []*mRec {
 
 func (s *mStub) emit(ctx context.Context, send chan<- mocrelay.ServerMsg, r *mRec) bool {
 	verifsim.Yield(fmt.Sprintf("child%d.emit", s.idx))
+	if s.plan.Lag > 0 {
+		// a slow child: simulated time passes only when everything else is quiescent
+		time.Sleep(time.Duration(s.plan.Lag) * time.Millisecond)
+		verifsim.Yield(fmt.Sprintf("child%d.lag", s.idx))
+	}
 	r.pos = len(s.recs)
 	s.recs = append(s.recs, r)
 	s.byMsg[r.msg] = r
@@ -397,6 +413,9 @@ func (mergeEngine) Exec(t *testing.T, cc any) *simrt.Result {
 		for i := range c.Events {
 			evs[i] = c.Events[i].Event()
 		}
+		if len(c.Children) > 4 {
+			st.Probe(fmt.Sprintf("wide_merge_%d_children", len(c.Children)))
+		}
 		var stubs []*mStub
 		var hs []mocrelay.Handler
 		for i := range c.Children {
@@ -418,16 +437,42 @@ func (mergeEngine) Exec(t *testing.T, cc any) *simrt.Result {
 		cl := sim.NewClient(context.Background(), "cl", c.Script)
 		cl.KeyOf = mergeKey
 		cl.Serve(h)
-		for i := 0; i < 64; i++ {
-			if s := sim.Drive(); s != simrt.Quiescent {
-				sim.Violate("C08", "deadlock", nil, "scheduler status %d: %v", s, sim.S.ParkedNames())
+		driveQ := func() bool {
+			for i := 0; i < 64; i++ {
+				if s := sim.Drive(); s != simrt.Quiescent {
+					sim.Violate("C08", "deadlock", nil, "scheduler status %d: %v", s, sim.S.ParkedNames())
+					return false
+				}
+				if !cl.Paused() {
+					break
+				}
+				st.Fault("reader-stall")
+				cl.Resume()
+			}
+			return true
+		}
+		if !driveQ() {
+			return
+		}
+		// slow children: let simulated time pass, one emission per round
+		rounds, lag := 0, 0
+		for i := range c.Children {
+			if ch := &c.Children[i]; ch.Lag > 0 {
+				n := 1 + len(ch.OKs) + len(ch.Counts)
+				for _, em := range ch.Reqs {
+					n += len(em)
+				}
+				rounds, lag = max(rounds, n), max(lag, ch.Lag)
+			}
+		}
+		if rounds > 0 {
+			st.Fault("slow-child")
+		}
+		for r := 0; r < min(rounds, 60); r++ {
+			sim.Advance(time.Duration(lag) * time.Millisecond)
+			if !driveQ() {
 				return
 			}
-			if !cl.Paused() {
-				break
-			}
-			st.Fault("reader-stall")
-			cl.Resume()
 		}
 		// the script may be waiting for an EOSE that legitimately never comes (a
 		// child that never sends one): that is allowed; everything is judged on
